@@ -5,6 +5,7 @@ mod c12;
 mod c13;
 mod c15;
 mod c16;
+mod c16conf;
 mod c19;
 mod c20;
 mod simdir;
